@@ -15,7 +15,7 @@ from fractions import Fraction
 import numpy as np
 
 from common import F, Rng, close_all, digest, err_class, fl, pmat, pvec, rs
-from fpca_util import (trapz_weights, EigCapture, Fm, Fv, Smat, Svec, curves, dense, grid, non_increasing, quiet,
+from fpca_util import (trapz_weights, multi_lowrank, pow2, EigCapture, Fm, Fv, Smat, Svec, curves, dense, grid, non_increasing, quiet,
                        raw_from_call, sel_to_model, sel_to_py)
 
 PROP = "C01"
@@ -121,7 +121,9 @@ def _helper_cases(rng: Rng, tier):
                 A = (A + A.T) / 2
             spec = s
         sels = _sels(rng, n, spec) + (_boundary_sels() if k % 5 == 0 else [])
-        yield dict(kind="helper", sub=sub, A=A.tolist(), sel=rng.choice(sels), spectrum=spec)
+        sc = float(pow2(rng)) ** 2  # matrices of any scale (covariances of data in small / large units)
+        yield dict(kind="helper", sub=sub, A=(A * sc).tolist(), sel=rng.choice(sels),
+                   spectrum=None if spec is None else [x * sc for x in spec], scale=sc)
     # (b') fractions sitting exactly on a cumulated ratio, in exact float arithmetic (power-of-two totals)
     for spec in ([4.0, 2.0, 1.0, 1.0], [2.0, 1.0, 1.0], [8.0, 4.0, 2.0, 1.0, 1.0], [1.0, 1.0]):
         perms = list(itertools.permutations(spec))
@@ -183,7 +185,17 @@ def _ufpca_cases(rng: Rng, tier):
             data = dict(t=Svec(t), X=Smat(X))
         size = m if method == "covariance" else n
         sel = rng.choice(_sels(rng, size) + [["all"], ["int", 2]])
-        yield dict(kind="ufpca", method=method, normalize=normalize, sel=sel, dk=dk, **data)
+        case = dict(kind="ufpca", method=method, normalize=normalize, sel=sel, dk=dk, **data)
+        if "X" in data and "t2" not in data:
+            sc = pow2(rng)
+            case["X"] = Smat([[F(x) * sc for x in r] for r in data["X"]])
+            case["scale"] = rs(sc)
+            # history: the same estimator object is fitted a second time, on data of another size and kind
+            nB, mB = rng.randint(2, 12), rng.randint(3, 18)
+            tB = grid(rng, mB)
+            XB, dkB = curves(rng, nB, tB, "lowrank" if dk in ("rough", "offset") else "rough", rank=1)
+            case["B"] = dict(t=Svec(tB), X=Smat(XB), dk=dkB)
+        yield case
 
 
 def _mfpca_cases(rng: Rng, tier):
@@ -199,6 +211,12 @@ def _mfpca_cases(rng: Rng, tier):
         method = ["inner-product", "covariance"][k % 2]
         sel = rng.choice([["all"], ["int", 2], ["int", 3], ["frac", "9/10"]]) if method == "inner-product" else rng.choice([["int", 2], ["int", 3], ["frac", "9/10"]])
         yield dict(kind="mfpca", method=method, sel=sel, comps=comps, dk="multi")
+    # covariance route with 2..4 components of different sizes and different numbers of univariate components
+    for k in range(60 if tier == "thorough" else 8):
+        P = [3, 3, 4, 2][k % 4]
+        comps = multi_lowrank(rng, P, rng.randint(8, 20))
+        yield dict(kind="mfpca", method="covariance", sel=rng.choice([["int", 2], ["int", 3], ["int", 4], ["frac", "9/10"]]),
+                   comps=comps, uni=[rng.choice([2, 3]) for _ in range(P)], dk=f"multi-lowrank-P{P}")
 
 
 def gen_cases(rng: Rng, tier):
@@ -271,13 +289,38 @@ def _fit(case, sel_py):
         else:
             mfd = _multi(case)
             if case["method"] == "covariance":
+                uni = case.get("uni") or [3] * len(case["comps"])
                 est = MFPCA(n_components=sel_py, method="covariance",
-                            univariate_expansions=[dict(method="UFPCA", n_components=3) for _ in case["comps"]])
+                            univariate_expansions=[dict(method="UFPCA", n_components=k) for k in uni])
             else:
                 est = MFPCA(n_components=sel_py, method="inner-product")
             est.fit(mfd)
             size = None
     return est, cap.last(size)
+
+
+def _mfpca_cov_pairing(est, vals):
+    """Covariance-route MFPCA: relative residual of `Q B d_k = ν_k d_k` for the stacked coefficient
+    vector `d_k` of eigenfunction `k` in the univariate bases (`Q` covariance of the univariate scores,
+    `B` block-diagonal Gram matrix of the bases) — eigenfunction `k` is the eigen-direction of eigenvalue `k`.
+    Uses the estimator's stored univariate decomposition; `None` if it is not available."""
+    try:
+        from FDApy.misc.utils import _block_diag
+
+        D = np.hstack([np.asarray(c.coefficients, dtype=float) for c in est.eigenfunctions.data])
+        Q = np.atleast_2d(np.cov(np.asarray(est._scores_univariate, dtype=float).T))
+        B = _block_diag(*[np.asarray(b.basis.inner_product(), dtype=float) for b in est._basis_univariate])
+        M = Q @ B
+        res = []
+        for k, lam in enumerate(vals):
+            d = D[k]
+            if not np.all(np.isfinite(d)):
+                res.append(None)
+                continue
+            res.append(float(np.abs(M @ d - lam * d).max() / max(np.abs(M).max() * np.abs(d).max(), 1e-300)))
+        return res
+    except Exception:  # noqa: BLE001
+        return None
 
 
 def _eigfun_values(est):
@@ -355,6 +398,25 @@ def run_impl(case):
             out["n_obs"] = int(fd.n_obs)
     else:
         out["n_obs"] = int(len(Fm(case["comps"][0]["X"])))
+        if case["method"] == "covariance":
+            out["pair_res"] = _mfpca_cov_pairing(est, out["vals"])
+    # history: refit the SAME estimator object on other data and compare with a fresh estimator
+    if case["kind"] == "ufpca" and "B" in case:
+        from FDApy.preprocessing.dim_reduction.ufpca import UFPCA
+
+        fdB = dense([Fv(case["B"]["t"])], np.array(fl(Fm(case["B"]["X"]))))
+        with quiet():
+            try:
+                est.fit(fdB)
+                out["refit_vals"] = [float(x) for x in np.asarray(est.eigenvalues)]
+            except Exception as e:  # noqa: BLE001
+                out["refit_error"] = err_class(e)
+            try:
+                fresh = UFPCA(method=case["method"], n_components=sel_py, normalize=case["normalize"])
+                fresh.fit(dense([Fv(case["B"]["t"])], np.array(fl(Fm(case["B"]["X"])))))
+                out["fresh_vals"] = [float(x) for x in np.asarray(fresh.eigenvalues)]
+            except Exception as e:  # noqa: BLE001
+                out["fresh_error"] = err_class(e)
     # the full decomposition, for the prefix / leading clauses
     if case["sel"][0] != "all" and not (case["kind"] == "mfpca" and case["method"] == "covariance"):
         try:
@@ -500,7 +562,7 @@ def oracle(case, impl):
         bad("rejects", f"invalid selector {sel} accepted")
         return vs
     vals = impl["vals"]
-    lam_max = max([abs(x) for x in vals + impl.get("full_vals", [])] + [1e-300])
+    lam_max = max([abs(x) for x in vals + impl.get("full_vals", []) + [y / max(impl.get("n_obs", 1), 1) if (case["kind"] != "helper" and case.get("method") == "inner-product") else y for y in impl.get("raw_vals", [])]] + [1e-300])
     tol = 1e-10 * lam_max
     # non-increasing
     for i in range(len(vals) - 1):
@@ -547,6 +609,13 @@ def oracle(case, impl):
                 if np.abs(A @ u - lam * u).max() > 1e-8 * nrm:
                     bad("paired", f"returned pair (value {lam!r}) does not satisfy A u = value·u (residual {np.abs(A @ u - lam * u).max():.3g})")
                     break
+    if "refit_vals" in impl or "refit_error" in impl:
+        a1, a2 = impl.get("refit_vals"), impl.get("fresh_vals")
+        if a1 is None or a2 is None:
+            if impl.get("refit_error") != impl.get("fresh_error"):
+                bad("stale_state", f"second fit of the same estimator: {impl.get('refit_error')} vs fresh estimator: {impl.get('fresh_error')}")
+        elif len(a1) != len(a2) or not np.array_equal(np.array(a1), np.array(a2), equal_nan=True):
+            bad("stale_state", f"a second fit of the same estimator (n_components={sel}) reports {len(a1)} eigenvalues {a1[:4]}, a fresh estimator {len(a2)}: {a2[:4]}")
     if impl.get("pair_res"):
         for k, r in enumerate(impl["pair_res"]):
             if r is not None and vals[k] > 1e-8 * lam_max and r > 1e-7:
